@@ -273,3 +273,47 @@ mutant('c19-functions-skipped','C19','analyzeModule',O,'''		newFn := o.optimizeF
 		if len(fn.Body.Statements) > 0 || fn.Body.Expression != nil {
 			functionsOut = append(functionsOut, newFn)
 		}''')
+# C14 / C15 / compiler scopes
+CU='homescript/compiler/util.go'
+CS='homescript/compiler/statement.go'
+mutant('c14-resolve-any-module','C14','getMangledFn',CU,'''	return "", false
+}
+
+func (self Compiler) getMangled(''','''	for _, module := range self.modules {
+		if fn, found := module[input]; found {
+			return fn.MangledName, true
+		}
+	}
+
+	return "", false
+}
+
+func (self Compiler) getMangled(''')
+mutant('c15-import-wrong-module','C15','getMangledFn',CU,'if fn, found := self.modules[item.FromModule.Ident()][input]; found {','if fn, found := self.modules[self.entryPointModule][input]; found {')
+mutant('c15-getmangled-outermost','C15','getMangled',CU,'	for i := len(self.varScopes) - 1; i >= 0; i-- {\n		scope := self.varScopes[i]','	for i := 0; i < len(self.varScopes); i++ {\n		scope := self.varScopes[i]')
+mutant('c01-while-no-scope','C01','compileStmt',CS,'''		defer self.popLoop()
+
+		self.compileBlock(node.Body, true)
+		self.insert(newOneStringInstruction(Opcode_Jump, head_label), node.Range)
+''','''		defer self.popLoop()
+
+		self.compileBlock(node.Body, false)
+		self.insert(newOneStringInstruction(Opcode_Jump, head_label), node.Range)
+''')
+mutant('c01-for-scope-leak','C01','compileStmt',CS,'''		// Create initial state of iterator
+		self.pushScope()
+		defer self.popScope()
+''','''		// Create initial state of iterator
+		self.pushScope()
+''')
+mutant('c01-mangle-into-outer-scope','C01','mangleVar',CU,'	(*self.currScope)[input] = mangled\n','	self.varScopes[0][input] = mangled\n')
+mutant('c11-loop-stack-leak','C11','compileStmt',CS,'''			labelContinue: head_label,
+		})
+		defer self.popLoop()
+
+		self.compileBlock(node.Body, true)
+		self.insert(newOneStringInstruction(Opcode_Jump, head_label), node.Span())''','''			labelContinue: head_label,
+		})
+
+		self.compileBlock(node.Body, true)
+		self.insert(newOneStringInstruction(Opcode_Jump, head_label), node.Span())''')
